@@ -525,8 +525,22 @@ def P_where(c, a, b):
             return a if c.constval() != 0 else b
         return c * a + (Rat.lift(1) - c) * b    # boolean atom: where = c*a + (1-c)*b
     return elemwise(w, c, a, b)
+_UNARY_CONST = {('exp', 0): 1, ('sin', 0): 0, ('cos', 0): 1, ('tanh', 0): 0, ('log', 1): 0, ('sqrt', 0): 0,
+                ('sqrt', 1): 1, ('arctanh', 0): 0, ('tan', 0): 0, ('arcsin', 0): 0, ('arctan', 0): 0}
+
 def unary(name):
-    return lambda x, *a, **k: elemwise(lambda v: uf(name, v), x)
+    def one(v):
+        r = Rat.lift(v)
+        if r.is_const():
+            c = r.constval()
+            if (name, c) in _UNARY_CONST:
+                return Rat.lift(_UNARY_CONST[(name, c)])
+            if name == 'abs':
+                return Rat.lift(abs(c))
+            if name == 'sign':
+                return Rat.lift((c > 0) - (c < 0))
+        return uf(name, v)
+    return lambda x, *a, **k: elemwise(one, x)
 def P_sum(x, axis=None, **kw):
     x = asarr(x)
     if isinstance(axis, range):
@@ -750,18 +764,20 @@ class Interp:
         if t is ast.BinOp:
             return self.binop(n.op, self.ev(n.left, env, mod), self.ev(n.right, env, mod))
         if t is ast.BoolOp:
-            vals = [self.ev(v, env, mod) for v in n.values]
-            if all(isinstance(v, (bool, type(None), int, str, tuple, list)) for v in vals):
-                if isinstance(n.op, ast.And):
-                    r = True
-                    for v in vals:
-                        r = r and v
+            conc = (bool, type(None), int, float, str, tuple, list, dict, Fraction)
+            is_and = isinstance(n.op, ast.And)
+            r = None
+            for vn in n.values:
+                r = self.ev(vn, env, mod)
+                if isinstance(r, Rat) and r.is_const():
+                    r = r.constval()
+                if not isinstance(r, conc) and not (isinstance(r, tuple)):
+                    raise OutOfFragment('bool op on abstract values')
+                if is_and and not r:
                     return r
-                r = False
-                for v in vals:
-                    r = r or v
-                return r
-            raise OutOfFragment('bool op on abstract values')
+                if not is_and and r:
+                    return r
+            return r
         if t is ast.Compare:
             l = self.ev(n.left, env, mod)
             res = None
@@ -1018,6 +1034,8 @@ class Interp:
                 return ('bound', 'dict_' + a, v)
         if isinstance(v, (tuple, list)) and a in ('index', 'append', 'count', 'extend'):
             return ('bound', 'seq_' + a, v)
+        if isinstance(v, (list, str, dict, set, range)) and not (isinstance(v, tuple) and v and isinstance(v[0], str) and len(v) == 3) and hasattr(v, a) and callable(getattr(v, a)):
+            return ('pybound', getattr(v, a))
         raise OutOfFragment('attr %s on %s' % (a, type(v).__name__))
 
     # --- calls
@@ -1060,6 +1078,8 @@ class Interp:
             return self.builtin(fn[1], args, kw)
         if isinstance(fn, tuple) and fn and fn[0] == 'bound':
             return self.bound(fn[1], fn[2], args, kw)
+        if isinstance(fn, tuple) and fn and fn[0] == 'pybound':
+            return fn[1](*args, **kw)
         if isinstance(fn, ModRef):
             return self.extern(fn.name, args, kw)
         raise OutOfFragment('call of %r' % (fn,))
@@ -1228,7 +1248,11 @@ class Interp:
                 self.attr(args[0], args[1]); return True
             except OutOfFragment:
                 return False
-        if name == 'sorted': return sorted(*args, **kw)
+        if name == 'sorted':
+            if 'key' in kw and not callable(kw['key']):
+                k = kw['key']
+                kw = dict(kw, key=lambda x: self.apply(k, [x], {}))
+            return sorted(*args, **kw)
         raise OutOfFragment('builtin ' + name)
 
     def bound(self, what, v, args, kw):
@@ -1257,6 +1281,8 @@ class Interp:
             if m == 'take':
                 i = toint(args[0]); ax = kw.get('axis', args[1] if len(args) > 1 else None)
                 return np.take(v, i, axis=ax, mode='wrap')
+            if m == 'sum':
+                return v.sum(*args, **{k_: x for k_, x in kw.items() if k_ in ('axis',)})
             if m == 'reshape' and len(args) == 1 and isinstance(args[0], (tuple, list)):
                 return v.reshape(tuple(args[0]))
             return getattr(v, m)(*args, **kw)
@@ -1391,6 +1417,21 @@ class Interp:
             for item in self.ev(s.iter, env, mod):
                 self.assign(s.target, item, env, mod)
                 self.block(s.body, env, mod)
+            return
+        if t is ast.While:
+            n_it = 0
+            while True:
+                c = self.ev(s.test, env, mod)
+                if isinstance(c, Rat) and c.is_const():
+                    c = c.constval() != 0
+                if not isinstance(c, (bool, type(None), int, str, tuple, list, dict)):
+                    raise OutOfFragment('while on abstract value: ' + ast.unparse(s.test))
+                if not c:
+                    break
+                self.block(s.body, env, mod)
+                n_it += 1
+                if n_it > 100000:
+                    raise OutOfFragment('while loop does not terminate')
             return
         if t is ast.FunctionDef:
             if (mod, s.name) in self.opaque:
